@@ -25,10 +25,24 @@ type visitKey struct {
 type hasher struct {
 	h       hash.Hash
 	visited map[visitKey]int
+
+	// Spare capacity of byte slices: sub-slices of one array (the glyphs of a
+	// TrueType font are sub-slices of the "glyf" table, each with the rest of
+	// the table as spare capacity) share their spare bytes.  Every spare byte
+	// is hashed, but once: per distinct array end, the bytes from the smallest
+	// len-end of the slices ending there up to the array end; the region
+	// hashes are appended to the walk's hash in sorted order (so that the
+	// result does not depend on addresses or on map iteration order).
+	spare map[uintptr]unsafe.Pointer // array end -> lowest start of a spare region
+	top   bool
 }
 
 func newHasher() *hasher {
-	return &hasher{h: sha256.New(), visited: map[visitKey]int{}}
+	return &hasher{h: sha256.New(), visited: map[visitKey]int{}, spare: map[uintptr]unsafe.Pointer{}, top: true}
+}
+
+func (hs *hasher) sub() *hasher {
+	return &hasher{h: sha256.New(), visited: hs.visited, spare: hs.spare}
 }
 
 func (hs *hasher) u64(x uint64) {
@@ -43,6 +57,25 @@ func (hs *hasher) tag(s string) {
 }
 
 func (hs *hasher) sum() [32]byte {
+	if hs.top && len(hs.spare) > 0 {
+		regions := make([][32]byte, 0, len(hs.spare))
+		for end, start := range hs.spare {
+			regions = append(regions, sha256.Sum256(unsafe.Slice((*byte)(start), end-uintptr(start))))
+		}
+		sort.Slice(regions, func(i, j int) bool {
+			for b := 0; b < 32; b++ {
+				if regions[i][b] != regions[j][b] {
+					return regions[i][b] < regions[j][b]
+				}
+			}
+			return false
+		})
+		hs.tag("spare")
+		for _, r := range regions {
+			hs.h.Write(r[:])
+		}
+		hs.spare = map[uintptr]unsafe.Pointer{}
+	}
 	var out [32]byte
 	copy(out[:], hs.h.Sum(nil))
 	return out
@@ -116,7 +149,14 @@ func (hs *hasher) walk(v reflect.Value) {
 			hs.u64(uint64(v.Cap()))
 		}
 		if v.Type().Elem().Kind() == reflect.Uint8 {
-			hs.h.Write(full.Bytes())
+			hs.h.Write(v.Bytes())
+			if v.Cap() > n {
+				start := unsafe.Add(v.UnsafePointer(), n)
+				end := uintptr(v.UnsafePointer()) + uintptr(v.Cap())
+				if old, ok := hs.spare[end]; !ok || uintptr(start) < uintptr(old) {
+					hs.spare[end] = start
+				}
+			}
 			return
 		}
 		for i := 0; i < full.Len(); i++ {
@@ -140,9 +180,9 @@ func (hs *hasher) walk(v reflect.Value) {
 		var ents []ent
 		it := v.MapRange()
 		for it.Next() {
-			kh := &hasher{h: sha256.New(), visited: hs.visited}
+			kh := hs.sub()
 			kh.walk(it.Key())
-			eh := &hasher{h: sha256.New(), visited: hs.visited}
+			eh := hs.sub()
 			eh.walk(it.Value())
 			ents = append(ents, ent{kh.sum(), eh.sum()})
 		}
